@@ -16,12 +16,12 @@ EXTENDS RigoMon, Json, TLC
 
 TraceLog == ndJsonDeserialize("trace.ndjson")
 
-VARIABLES l, pre, mon, viol
-tvars == <<l, pre, mon, viol>>
+VARIABLES l, pre, mon, viol, seen
+tvars == <<l, pre, mon, viol, seen>>
 
 NoState == [h |-> 0]
 
-TraceInit == l = 1 /\ pre = NoState /\ mon = InitMon /\ viol = <<>>
+TraceInit == l = 1 /\ pre = NoState /\ mon = InitMon /\ viol = <<>> /\ seen = {}
 
 HasPost(e) == "post" \in DOMAIN e
 
@@ -31,36 +31,39 @@ TraceNext ==
   /\ l <= Len(TraceLog)
   /\ l' = l + 1
   /\ LET e == TraceLog[l] IN
-     IF e.ev = "Genesis" THEN
-        /\ pre' = e.post /\ mon' = GenesisMon(e, mon.trace + 1)
-        /\ viol' = Record(e, C11State(e.post))
-     ELSE IF mon.dead THEN UNCHANGED <<pre, mon, viol>>
-     ELSE IF e.ev \in StateEvents /\ HasPost(e) /\ ~Sane(e.post) THEN
-        \* a power or height outside the range the consensus engine accepts (rendered as -1): nothing else can be judged
-        /\ viol' = Record(e, {"C11: a stake or delegatee has a power outside the range of valid voting powers (> 2^31/100 in this harness, or negative)",
-                              "C02: a stake or delegatee has a power outside the range of valid voting powers"} \cup C09(e))
-        /\ mon' = [mon EXCEPT !.dead = TRUE]
-        /\ pre' = pre
-     ELSE IF e.ev \in StateEvents /\ HasPost(e) THEN
-        /\ viol' = Record(e, Checks(e, pre, e.post, mon) \cup C09(e))
-        /\ mon' = NextMon(e, pre, e.post, mon)
-        /\ pre' = e.post
-     ELSE IF e.ev = "Query" THEN
-        /\ viol' = Record(e, C19(e, mon) \cup QueryReadOnly(e) \cup C09(e))
-        /\ mon' = QueryMon(e, mon)
-        /\ pre' = pre
-     ELSE
-        \* an event without a projection: the replica died (panic) or an Info / ConsensusReject / Note line
-        /\ viol' = Record(e, C09(e) \cup If(e.ev = "ConsensusReject" /\ e.what # "validator set would become empty",
-                                          "C10: the consensus engine rejects the validator updates: " \o e.what))
-        /\ mon' = IF e.ev \in StateEvents THEN [mon EXCEPT !.dead = TRUE] ELSE mon
-        /\ pre' = pre
-  /\ TLCSet(1, viol') /\ TLCSet(2, l')
+     /\ IF e.ev = "Genesis" THEN
+           /\ pre' = e.post /\ mon' = GenesisMon(e, mon.trace + 1)
+           /\ viol' = Record(e, C11State(e.post))
+        ELSE IF mon.dead THEN UNCHANGED <<pre, mon, viol>>
+        ELSE IF e.ev \in StateEvents /\ HasPost(e) /\ ~Sane(e.post) THEN
+           \* a power or height outside the range the consensus engine accepts (rendered as -1): nothing else can be judged
+           /\ viol' = Record(e, {"C11: a stake or delegatee has a power outside the range of valid voting powers (> 2^31/100 in this harness, or negative)",
+                                 "C02: a stake or delegatee has a power outside the range of valid voting powers"} \cup C09(e))
+           /\ mon' = [mon EXCEPT !.dead = TRUE]
+           /\ pre' = pre
+        ELSE IF e.ev \in StateEvents /\ HasPost(e) THEN
+           /\ viol' = Record(e, Checks(e, pre, e.post, mon) \cup C09(e))
+           /\ mon' = NextMon(e, pre, e.post, mon)
+           /\ pre' = e.post
+        ELSE IF e.ev = "Query" THEN
+           /\ viol' = Record(e, C19(e, mon) \cup QueryReadOnly(e) \cup C09(e))
+           /\ mon' = QueryMon(e, mon)
+           /\ pre' = pre
+        ELSE
+           \* an event without a projection: the replica died (panic) or an Info / ConsensusReject / Note line
+           /\ viol' = Record(e, C09(e) \cup If(e.ev = "ConsensusReject" /\ e.what # "validator set would become empty",
+                                             "C10: the consensus engine rejects the validator updates: " \o e.what))
+           /\ mon' = IF e.ev \in StateEvents THEN [mon EXCEPT !.dead = TRUE] ELSE mon
+           /\ pre' = pre
+     /\ seen' = IF e.ev \in StateEvents /\ HasPost(e) /\ e.ev # "Genesis" /\ ~mon.dead /\ Sane(e.post) /\ pre # NoState
+                   THEN seen \cup Witness(e, pre, e.post) ELSE seen
+  /\ TLCSet(1, viol') /\ TLCSet(2, l') /\ TLCSet(3, seen')
 
 TraceSpec == TraceInit /\ [][TraceNext]_tvars
 
 Report ==
   /\ PrintT(<<"CONSUMED", TLCGet(2) - 1, "OF", Len(TraceLog)>>)
   /\ PrintT(<<"VIOLATIONS", ToJson(TLCGet(1))>>)
+  /\ PrintT(<<"WITNESSES", ToJson(TLCGet(3))>>)
   /\ TLCGet(2) - 1 = Len(TraceLog)
 =============================================================================
